@@ -56,7 +56,8 @@ def queries(tier, seed):
         for w in v['wheres'][:3]:
             qs.append(('plain', {'kind': 'select', 'items': list(lst), 'where': w, 'join': None}))
     # wide rows: two-digit field numbers (a10, a11, a12) in items and EXCEPT lists
-    for ex in ([('f', 'a', 3), ('f', 'a', 11)], [('f', 'a', 11), ('f', 'a', 2), ('f', 'a', 10)], [('f', 'a', 12)], [('f', 'a', 1), ('f', 'a', 10, 'a[N]')]):
+    for ex in ([('f', 'a', 3), ('f', 'a', 11)], [('f', 'a', 11), ('f', 'a', 2), ('f', 'a', 10)], [('f', 'a', 12)], [('f', 'a', 1), ('f', 'a', 10, 'a[N]')],
+               [('f', 'a', 2), ('f', 'a', 4), ('f', 'a', 6), ('f', 'a', 8)], [('f', 'a', 12), ('f', 'a', 1), ('f', 'a', 7), ('f', 'a', 3), ('f', 'a', 9)]):
         qs.append(('wide', {'kind': 'select', 'items': [('star', None)], 'except_cols': ex, 'where': None, 'join': None}))
     for lst in ([('f', 'a', 10), ('f', 'a', 1)], [('f', 'a', 11, 'a[N]'), ('f', 'a', 12), ('f', 'a', 13)], [('cat', ('f', 'a', 1), ('f', 'a', 10)), ('f', 'a', 2)]):
         qs.append(('wide', {'kind': 'select', 'items': lst, 'where': ('cmp', '!=', ('f', 'a', 12), ('lit', 'zz')), 'join': None}))
